@@ -348,6 +348,20 @@ func runRedef(c *Ctx) {
 						}
 					}
 				}
+				// library form: slices.Contains(g.OutEdges(v), root)
+				if l.Kind == "call" && l.Pol {
+					if cl, ok := l.Of.(*ssa.Call); ok && len(cl.Common().Args) == 2 {
+						if pk, fn := core.StdCallee(cl.Common().StaticCallee()); pk == "slices" && fn == "Contains" {
+							if prm, ok := core.Strip(cl.Common().Args[1]).(*ssa.Parameter); ok {
+								if ks := p.KindOf(prm); len(ks) == 1 && ks[0] == kinds.Root {
+									if r, ok := core.Root(cl.Common().Args[0]).(*ssa.Call); ok && core.CalleeName(r.Common()) == core.GOutEdges {
+										hasRoot = true
+									}
+								}
+							}
+						}
+					}
+				}
 			}
 			if hasValid && hasRoot {
 				if id, ok := mu.Key.(*ssa.Call); ok && core.CalleeName(id.Common()) == core.GVertexID && id.Common().Args[0] == mu.Value {
@@ -729,6 +743,31 @@ func runRedef(c *Ctx) {
 					}
 					for _, r := range core.Returns(h) {
 						walk(r.Results[0], d+1)
+					}
+					return
+				}
+				// slices.Clone(opts) / slices.Concat(opts, …): a private copy of the captured options
+				if pk, fn := core.StdCallee(x.Common().StaticCallee()); pk == "slices" && (fn == "Clone" || fn == "Concat") {
+					as := x.Common().Args
+					if fn == "Concat" && len(as) == 1 {
+						as = sliceElems(as[0], 0, map[ssa.Value]bool{})
+					}
+					for _, a := range as {
+						src := a
+						for i := 0; i < 3; i++ {
+							if prm, ok := src.(*ssa.Parameter); ok {
+								if b, ok := bindings[prm]; ok {
+									src = b
+									continue
+								}
+							}
+							break
+						}
+						if capturedIs(src, 1) {
+							hasOpts, private = true, true
+						} else {
+							walk(src, d+1)
+						}
 					}
 					return
 				}
